@@ -3,7 +3,7 @@
    H / dsha256 is ANY function bytes -> bytes (pycoin passes double SHA-256); the transaction codec
    (parse_tx, stream_tx, tx_hash) is ANY codec meeting the hypotheses written in the statements. *)
 From PV Require Import Base.Bytes Base.Outcome Base.Varint Model.Merkle Model.Block Model.MerkleBlock
-  Spec.MerkleSpec Spec.PartialMerkle Proofs.MerkleP Proofs.BlockP Proofs.MerkleBlockP Proofs.C14Tie.
+  Spec.MerkleSpec Spec.PartialMerkle Proofs.MerkleP Proofs.BlockP Proofs.MerkleBlockP Proofs.C14Tie Model.BlockObj Proofs.BlockObjP.
 
 (* ---- tie to the source: the layouts the models transcribe are the ones /repo uses now -------------------- *)
 (* block header "L##LLL", count "I", merkleblock "header:z total_transactions:L hashes:[#] flags:[1]" with
@@ -49,6 +49,27 @@ Theorem C14_id_is_dsha_of_80 : forall (dsha256 : bytes -> bytes),
      block_id dsha256 h = Ret (rev (dsha256 s)) /\ forall rest, parse_header (s ++ rest) = Ret (h, rest)).
 Proof. intros d. split; [exact (hash_of_parsed d) | exact (hash_of_wf d)]. Qed.
 Print Assumptions C14_id_is_dsha_of_80.
+
+(* the id holds for every HISTORY of one Block object, not only for fresh objects.  Model/BlockObj.v carries the
+   object's memo attribute (_Block__hash) as state and transcribes hash()'s `hasattr(self, "__hash")` test, which
+   never sees the name-mangled attribute.  For every sequence of hash()/id()/str()/as_bin() calls, set_nonce and plain
+   assignments to version, previous_block_hash, merkle_root, timestamp, difficulty, and every initial memo:
+   all observations equal the memo-free specification computed from the current field values only *)
+Theorem C14_history_is_memo_free : forall (dsha256 : bytes -> bytes) (ops : list block_op) (o : block_obj),
+  obj_run dsha256 o ops = spec_run dsha256 (o_header o) ops.
+Proof. exact obj_run_is_spec. Qed.
+Print Assumptions C14_history_is_memo_free.
+
+(* ... hence after any history of well-formed updates, hash() = dsha256 of the 80 bytes of the CURRENT fields,
+   id() its reversal, and those 80 bytes parse back to the current fields *)
+Theorem C14_id_after_any_history : forall (dsha256 : bytes -> bytes) (o : block_obj) (ops : list block_op),
+  wf_header (o_header o) -> Forall op_wf ops ->
+  let h := final_header (o_header o) ops in
+  exists s, length s = 80 /\ stream_header h = Ret s /\ (forall rest, parse_header (s ++ rest) = Ret (h, rest)) /\
+    obj_run dsha256 o (ops ++ [OpHash; OpId; OpStreamHeader]) =
+    obj_run dsha256 o ops ++ [Ret (dsha256 s); Ret (rev (dsha256 s)); Ret s].
+Proof. exact id_after_any_history. Qed.
+Print Assumptions C14_id_after_any_history.
 
 (* ---- full blocks (transaction codec abstract) ------------------------------------------------------------ *)
 Theorem C14_block_roundtrip : forall (tx : Type) (parse_tx : parser tx) (stream_tx : tx -> bytes) (tx_hash : tx -> bytes)
@@ -240,3 +261,15 @@ Example C14_ex_block :
   | _ => False
   end.
 Proof. vm_compute. repeat split. Qed.
+
+(* a history: hash, bump the timestamp, hash again (differs, and is the hash of the new header), set_nonce, id *)
+Example C14_ex_history :
+  let o := mkObj (mkHeader 2 (repeatb x01 32) (repeatb x02 32) 1400000000 486604799 0) None in
+  match obj_run toyH o [OpHash; OpSetTimestamp 1400000001; OpHash; OpSetNonce 7; OpId; OpSetRoot (repeatb x03 32); OpHash] with
+  | [Ret a; Ret b; Ret c; Ret d] =>
+      a <> b /\ Ret b = block_hash toyH (mkHeader 2 (repeatb x01 32) (repeatb x02 32) 1400000001 486604799 0) /\
+      Ret (rev c) = block_hash toyH (mkHeader 2 (repeatb x01 32) (repeatb x02 32) 1400000001 486604799 7) /\
+      Ret d = block_hash toyH (mkHeader 2 (repeatb x01 32) (repeatb x03 32) 1400000001 486604799 7)
+  | _ => False
+  end.
+Proof. vm_compute. repeat split. discriminate. Qed.
